@@ -37,8 +37,10 @@ def slices(tier):
                  [(0, 1, 8, 1, 1), (0, 2, 8, 1, 1), (0, 1, 1, 1, 1)]),   # + default costs: transfers nested under both root children
                 # deep species trees, a transfer twice as dear as a duplication or a loss: a speciation two levels above a
                 # placement that only a transfer makes cheap
-                ("P3x6/bighgt2", spaces.shape_pairs(3, 6, min_obj=3, min_sp=6), [(0, 1, 2, 1, 1)])]
-    six = [(0, 1, 1, 1, 1), (1, 1, 1, 1, 1), (1, 3, 5, 2, 1), (0, 1, 1, 0, 1), (0, 1, dtl.INF, 1, 1), (2, 1, 0, 1, 1)]
+                ("P3x6/bighgt2", spaces.shape_pairs(3, 6, min_obj=3, min_sp=6), [(0, 1, 2, 1, 1)]),
+                # 5 object leaves: a transferred child that is itself an internal node with leaves in several sister clades
+                ("P5x3/bighgt2", spaces.shape_pairs(5, 3, min_obj=5, min_sp=3), [(0, 1, 2, 1, 1)])]
+    six = [(0, 1, 1, 1, 1), (1, 1, 1, 1, 1), (1, 3, 5, 2, 1), (0, 1, 1, 0, 1), (0, 1, dtl.INF, 1, 1), (2, 1, 0, 1, 1), (0, 1, 2, 1, 1)]
     p54 = [p for p in spaces.shape_pairs(5, 4)]
     p36 = [p for p in spaces.shape_pairs(3, 6, min_sp=5)]
     return [
